@@ -59,6 +59,10 @@ def key_signature(fn, t):
     if isinstance(t, tuple) and t[0] == 'call' and t[1] in ('abs', 'fabs') and len(t) == 3:
         ab = True
         t = t[2]
+    elif isinstance(t, tuple) and t[0] == 'call' and t[1] == 'norm1' and len(t) == 3:
+        # |re| + |im|: equals |x| for a real value, NOT the modulus of a complex one
+        ab = 'one-norm'
+        t = t[2]
     elif isinstance(t, tuple) and t[0] == 'call' and t[1] == 'norm' and len(t) == 3:
         # squared modulus: mathematically monotone in |x| but NOT order-equivalent in floating point
         # (it under/overflows for |x| outside roughly [1e-154, 1e154] and turns distinct magnitudes into ties)
@@ -108,7 +112,7 @@ def keys(ctx, rule='sort-key-matches-rule-name'):
         sigs = set(key_signature(fn, sym(fn, x['value'])) for x in rets)
         if not is_c:
             # the real part of a real value is the value itself
-            sigs = set((sg, ab, 'value' if comp_ == 're' else comp_) for (sg, ab, comp_) in sigs)
+            sigs = set((sg, True if ab == 'one-norm' else ab, 'value' if comp_ == 're' else comp_) for (sg, ab, comp_) in sigs)
         ok = sigs == {want}
         ctx.check(ok, rule, inst, fn.qname,
                   'key = %s%s(%s)' % ('-' if want[0] == '-' else '', '|.|' if want[1] else '', want[2]) if ok else
